@@ -86,10 +86,11 @@ def load_table(name):
         return json.load(fh)
 
 
-def evaluate(prop, tier, rules, repo, configs=None):
-    """Run the rules of one property over one tree; returns (report, ctx, unlisted violations, kf_present, audited_used)."""
+def evaluate(prop, tier, rules, repo, configs=None, ctx=None):
+    """Run the rules of one property over one tree; returns (report, ctx, unlisted violations, kf_present, audited_used).
+    `ctx` may be shared between properties evaluated on the same tree (the facts are loaded once)."""
     rep = Report(prop, tier)
-    ctx = Ctx(repo, tier)
+    ctx = ctx or Ctx(repo, tier)
     for cfg in (configs or ctx.all_configs()):
         ctx.current = cfg
         before = len(rep.instances)
@@ -145,6 +146,15 @@ def evaluate(prop, tier, rules, repo, configs=None):
         fn_ = re.sub(r"::\{closure#\d+\}", "", fn_)
         sig = re.sub(r"#\d+$", "", sig)
         sig = re.sub(r"#[A-Za-z_]+\.", "#.", sig)
+        if rule_ == "R-ALLOC":
+            # the allocating operation, not the name of the abstract value that sizes it
+            sig = sig.split(" ")[0]
+        if rule_ == "R-INDEX":
+            # what is accessed and how far, not the name the analysis gives to the buffer's provenance (`local`,
+            # `local#Some.0`, `arg2`, `self.buf`: that changes when a loop is re-spelt or a value is passed along)
+            sig = re.sub(r" of .*$", "", sig)
+            # `call helper needs N`: N is the largest constant need inside the helper, it moves when the helper's body is re-arranged
+            sig = re.sub(r"^(call \S+ needs) \d+$", r"\1", sig)
         return "%s|%s|%s" % (fn_, rule_, sig)
     listed = {}
     for k in list(kf_by_key) + list(audited_by_key):
@@ -156,16 +166,21 @@ def evaluate(prop, tier, rules, repo, configs=None):
             continue
         if inst["key"] in kf_by_key or inst["key"] in audited_by_key:
             used_exact.add(inst["key"])
-    for inst in rep.instances:
-        if inst["verdict"] != "violation":
-            continue
-        k = inst["key"]
-        if k not in kf_by_key and k not in audited_by_key:
-            free = [x for x in listed.get(base(k), []) if x not in used_exact]
-            if free:
-                used_exact.add(free[0])
-                inst["matched_as"] = free[0]
-                k = free[0]
+    present = {i["key"] for i in rep.instances if i["verdict"] != "holds"}
+
+    def vacated(inst):
+        """listed sites of the same rule that have disappeared from the functions a new function is called from"""
+        famset = set(inst["facts"]["family"])
+        out = []
+        for x in list(kf_by_key) + list(audited_by_key):
+            if x in used_exact or x in present:
+                continue
+            ps = x.split("|", 2)
+            if len(ps) == 3 and ps[1] == inst["rule"] and re.sub(r"::\{closure#\d+\}", "", ps[0]) in famset:
+                out.append(x)
+        return sorted(out)
+
+    def settle(inst, k):
         if k in kf_by_key:
             inst["verdict"] = "known-finding"
             f = kf_by_key[k]
@@ -176,6 +191,53 @@ def evaluate(prop, tier, rules, repo, configs=None):
             audited_used.append(k)
         else:
             violations.append(inst)
+
+    moved = []
+    for inst in rep.instances:
+        if inst["verdict"] != "violation":
+            continue
+        k = inst["key"]
+        if k not in kf_by_key and k not in audited_by_key:
+            free = [x for x in listed.get(base(k), []) if x not in used_exact]
+            if free:
+                used_exact.add(free[0])
+                inst["matched_as"] = free[0]
+                k = free[0]
+            else:
+                # not a listed signature: wait for the sites that are (they have the first claim on a listed slot)
+                if not (inst.get("facts") or {}).get("family"):
+                    inst.setdefault("facts", {})
+                    inst["facts"] = dict(inst["facts"] or {}, family=[re.sub(r"::\{closure#\d+\}", "", k.split("|", 1)[0])], same_fn=True)
+                moved.append(inst)
+                continue
+        settle(inst, k)
+    # A site whose signature is not listed, in a function that has listed sites of the same rule which have
+    # *disappeared*: the abstract value classes in a signature (`src32`, `bounded16`, `param2`) follow the precision
+    # of the analysis, which moves with the spelling of the code (a fold instead of a loop loses the relation
+    # between two running values).  Such a site takes a vacated slot of its function and rule; the number of
+    # unproved sites of a rule in a function can therefore never exceed the listed number without a report.
+    # A site inside a function that did not exist when the findings were triaged (or the constant need of such a
+    # function at its call site) is code that was moved there from one of its callers.  It takes the place of a
+    # listed site of the same rule that has *disappeared* from a caller -- first one with the same signature, then
+    # any; a site beyond the number of vacated ones is reported.
+    rest = []
+    for inst in moved:
+        bk = base(inst["key"]).split("|", 2)[-1]
+        same = [x for x in vacated(inst) if base(x).split("|", 2)[-1] == bk]
+        if same:
+            used_exact.add(same[0])
+            inst["matched_as"], inst["moved"] = same[0], True
+            settle(inst, same[0])
+        else:
+            rest.append(inst)
+    for inst in rest:
+        c = vacated(inst)
+        if c:
+            used_exact.add(c[0])
+            inst["matched_as"], inst["moved"] = c[0], True
+            settle(inst, c[0])
+        else:
+            settle(inst, inst["key"])
     return rep, ctx, violations, kf_present, audited_used
 
 
